@@ -1,17 +1,20 @@
 /-!
 Model of phylib's serialisation layer (property C18), phylib/utils/_misc.py:
-`_stringify_keys`, `_CustomEncoder.default`, `_json_custom_hook`, `_intify_keys` (JSON);
-`write_tsv` / `read_tsv` / `_try_make_number` / `_pretty_floats`, `_write_tsv_simple` /
-`_read_tsv_simple` (TSV/CSV).
-The `json`, `csv`, `base64`, number formatting/parsing libraries are transport (hypotheses of the
-theorems), exercised through the real libraries by the correspondence run.
+`_stringify_keys`, `_CustomEncoder.default`, `_json_custom_hook`, `_intify_keys` (JSON, this file);
+`write_tsv` / `read_tsv` at the level of cells (this file: field order, absent fields, empty cells);
+the character level — csv quoting and parsing, line terminators, delimiter sniffing,
+`_try_make_number`, `_pretty_floats`, `_write_tsv_simple` / `_read_tsv_simple` — in `Model/C18c.lean`;
+`write_python` / `read_python` in `Model/C18p.lean`.
+The `json` and `base64` libraries and the `repr` of floats are transport, exercised through the real
+libraries by the correspondence run.
 -/
 namespace PhyVerif.C18
 
 /-! ### JSON values -/
 
 mutual
-/-- a Python value handed to `save_json` (inside the top-level dictionary) -/
+/-- a Python value handed to `save_json` (inside the top-level dictionary), or a node of the JSON
+tree that is written -/
 inductive PV where
   | none
   | bool (b : Bool)
@@ -19,7 +22,14 @@ inductive PV where
   | float (tok : Nat)                   -- a float, identified by a token (repr round-trip is transport)
   | str (s : String)
   | npScalar (i : Int)                  -- `np.generic`; `.item()` gives the Python scalar
-  | arr (dtype : String) (shape : List Nat) (items : List Int)   -- ndarray: dtype, shape, C-order items
+  /-- ndarray: dtype (`str(a.dtype)`, byte order included), shape, and its MEMORY LAYOUT as NumPy has
+  it: the element at multi-index `idx` lives at memory position `offset + Σ idx_k · strides_k` (in
+  items) of the buffer `mem`.  C order, Fortran order, transposed, strided and reversed views are all
+  (strides, offset) pairs. -/
+  | arr (dtype : String) (shape : List Nat) (strides : List Int) (offset : Int) (mem : List Int)
+  /-- only inside written JSON trees: the string `base64(bytes of these items, laid out one after the
+  other as items of dtype `dtype`)`.  No shape, no layout. -/
+  | payload (dtype : String) (items : List Int)
   | list (l : PVList)
   | dict (kv : PVDict)                  -- nested dictionary (string keys)
 inductive PVList where
@@ -36,6 +46,11 @@ def isComplexDtype (d : String) : Bool := d.startsWith "complex"
 /-- number of items of an array -/
 def prod (shape : List Nat) : Nat := shape.foldl (· * ·) 1
 
+/-- number of items of an array of this shape (recursive form) -/
+def size : List Nat → Nat
+  | [] => 1
+  | n :: rest => n * size rest
+
 def ofInts : List Int → PVList
   | [] => .nil
   | i :: is => .cons (.int i) (ofInts is)
@@ -44,29 +59,66 @@ def ofNats : List Nat → PVList
   | [] => .nil
   | n :: ns => .cons (.int n) (ofNats ns)
 
-/-- the JSON object carrying an encoded array:
-`{"__ndarray__": base64(C-contiguous bytes), "dtype": str(dtype), "shape": shape}` — the payload is
-kept as the array itself (base64 ∘ tobytes / frombuffer ∘ b64decode is transport) -/
+/-- the JSON list of a shape read back as a shape (`reshape(d['shape'])`) -/
+def natsOf : PVList → List Nat
+  | .nil => []
+  | .cons (.int i) t => i.toNat :: natsOf t
+  | .cons _ t => natsOf t
+
+/-- reading memory (positions outside the buffer do not occur for a real array; they read 0 here) -/
+def getMem (mem : List Int) (p : Int) : Int := if p < 0 then 0 else mem.getD p.toNat 0
+
+/-- `np.ascontiguousarray(a)` / `a.tolist()` on 1-D: the elements in row-major (C) order of the
+multi-index, whatever the memory layout — nested loops over the axes, last axis fastest -/
+def gather (mem : List Int) : List Nat → List Int → Int → List Int
+  | [], _, pos => [getMem mem pos]
+  | n :: shape, s :: strides, pos =>
+    (List.range n).flatMap fun (i : Nat) => gather mem shape strides (pos + (i : Int) * s)
+  | n :: shape, [], pos =>      -- fewer strides than axes: not an array; missing strides read as 0
+    (List.range n).flatMap fun _ => gather mem shape [] pos
+
+/-- strides (in items) of a C-contiguous array of this shape — what `frombuffer(...).reshape(shape)`
+returns -/
+def cStrides : List Nat → List Int
+  | [] => []
+  | _ :: rest => (size rest : Int) :: cStrides rest
+
+/-- memory position of the element at `idx` -/
+def memPos : List Int → Int → List Nat → Int
+  | s :: strides, pos, i :: idx => memPos strides (pos + (i : Int) * s) idx
+  | _, pos, _ => pos
+
+/-- `a[idx]` -/
+def getAt (strides : List Int) (offset : Int) (mem : List Int) (idx : List Nat) : Int :=
+  getMem mem (memPos strides offset idx)
+
+/-- the JSON object carrying an encoded array (_misc.py:57-60):
+`{"__ndarray__": base64(np.ascontiguousarray(obj).data), "dtype": str(obj.dtype), "shape": obj.shape}` -/
 def marker (dtype : String) (shape : List Nat) (items : List Int) : PV :=
-  .dict (.cons "__ndarray__" (.arr dtype shape items)
+  .dict (.cons "__ndarray__" (.payload dtype items)
     (.cons "dtype" (.str dtype) (.cons "shape" (.list (ofNats shape)) .nil)))
 
-/-- the payload stored under `__ndarray__`, if any -/
-def findArr : PVDict → Option PV
+/-- `d[key]` of a JSON object -/
+def findKey (key : String) : PVDict → Option PV
   | .nil => none
-  | .cons k v t => if k == "__ndarray__" then some v else findArr t
+  | .cons k v t => if k == key then some v else findKey key t
+
+/-- the payload stored under `__ndarray__`, if any -/
+def findArr (kv : PVDict) : Option PV := findKey "__ndarray__" kv
 
 mutual
 /-- what `json.dump(..., cls=_CustomEncoder)` writes, as a JSON tree (represented in the same
-type): NumPy scalars become Python scalars; 1-D arrays of at most 10 items become lists of numbers;
-other arrays become `{"__ndarray__": <base64 of the C-contiguous bytes>, "dtype", "shape"}`,
-represented as `arr` with a flag-free identical payload wrapped in a dict marker. -/
+type): NumPy scalars become Python scalars; 1-D arrays of at most 10 items of a non-complex dtype
+become lists of numbers (`tolist()`); other arrays become the marker object holding the base64 of
+the C-contiguous copy, `str(dtype)` and the shape (_misc.py:51-60). -/
 def encode : PV → PV
   | .npScalar i => .int i
-  | .arr dtype shape items =>
+  | .arr dtype shape strides off mem =>
     match shape with
-    | [n] => if n ≤ 10 && !isComplexDtype dtype then .list (ofInts items) else marker dtype shape items
-    | _ => marker dtype shape items
+    | [n] =>
+      if n ≤ 10 && !isComplexDtype dtype then .list (ofInts (gather mem shape strides off))
+      else marker dtype shape (gather mem shape strides off)
+    | _ => marker dtype shape (gather mem shape strides off)
   | .list l => .list (encodeList l)
   | .dict kv => .dict (encodeDict kv)
   | v => v
@@ -78,15 +130,32 @@ def encodeDict : PVDict → PVDict
   | .cons k v t => .cons k (encode v) (encodeDict t)
 end
 
+/-- `np.frombuffer(base64.b64decode(d['__ndarray__']), d['dtype']).reshape(d['shape'])`
+(_misc.py:69-71): the items are recovered when the bytes are read with the dtype they were written
+with (a different dtype string reads other items: nothing is claimed, `[]` here); the result is a
+C-contiguous array of the stored shape.  A marker lacking `dtype`/`shape`, or whose payload is not a
+base64 string, makes the real hook raise (KeyError / TypeError): `.none` here.  `reshape` raises when
+the shape does not fit the number of items; the model does not check (never the case for a marker
+written by `encode`). -/
+def fromMarker (kv : PVDict) (p : PV) : PV :=
+  match p, findKey "dtype" kv, findKey "shape" kv with
+  | .payload pd items, some (.str d), some (.list sh) =>
+    .arr d (natsOf sh) (cStrides (natsOf sh)) 0 (if d == pd then items else [])
+  | _, _, _ => .none
+
 mutual
 /-- `json.loads(..., object_hook=_json_custom_hook)`: every JSON object containing the key
-`__ndarray__` is replaced by `frombuffer(b64decode(...), dtype).reshape(shape)` -/
+`__ndarray__` is replaced by the array rebuilt from its three entries; an object containing
+`__qbytearray__` is replaced by a Qt byte array (outside the value domain: `.none`) -/
 def decode : PV → PV
   | .list l => .list (decodeList l)
   | .dict kv =>
     match findArr kv with
-    | some a => a
-    | none => .dict (decodeDict kv)
+    | some p => fromMarker kv p
+    | none =>
+      match findKey "__qbytearray__" kv with
+      | some _ => .none
+      | none => .dict (decodeDict kv)
   | v => v
 def decodeList : PVList → PVList
   | .nil => .nil
@@ -151,23 +220,26 @@ where
     | [] => [x]
     | y :: ys => if x ≤ y then x :: y :: ys else y :: insert x ys
 
+/-- the text written for `row.get(field, None)`: the rendering of the value, or the empty string for
+an absent field (the csv writer writes `None` as '') -/
+def renderOpt {γ : Type} (render : γ → String) : Option γ → String
+  | some c => render c
+  | none => ""
+
 /-- `write_tsv`: header = `first_field` (if present) followed by the other fields sorted; one line
 per row with an empty string for an absent field -/
-def writeTsv (render : Cell → String) (rows : List (List (String × Cell))) (first : Option String) :
+def writeTsv {γ : Type} (render : γ → String) (rows : List (List (String × γ))) (first : Option String) :
     Option (List String × List (List String)) :=
   if rows.isEmpty then none else
   let fields := (rows.flatMap fun r => r.map (·.1)).eraseDups
   let fields := match first with
     | some f => if fields.contains f then f :: sortStrings (fields.erase f) else sortStrings fields
     | none => sortStrings fields
-  some (fields, rows.map fun r => fields.map fun f =>
-    match r.lookup f with
-    | some c => render c
-    | none => "")
+  some (fields, rows.map fun r => fields.map fun f => renderOpt render (r.lookup f))
 
 /-- `read_tsv`: zip header with each line, drop empty cells, parse numbers -/
-def readTsv (parse : String → Cell) (file : List String × List (List String)) :
-    List (List (String × Cell)) :=
+def readTsv {δ : Type} (parse : String → δ) (file : List String × List (List String)) :
+    List (List (String × δ)) :=
   file.2.map fun line => ((file.1.zip line).filter fun p => p.2 != "").map fun p => (p.1, parse p.2)
 
 end PhyVerif.C18
